@@ -10,7 +10,7 @@ symty   := <ty> | F <ret:ty> <k> <ty>*k
 payload := - | b 0/1 | i <int> | q <num> <den> | s <hex> | v <value> <width>
          | n <k> <nat>*k | y <hex> <symty> | Q <m> (<hex> <ty>)*m | t <ty>
 term    := T <n> (<op> <payload> <k> <childidx>*k)*n          -- root = last node
-val     := b 0/1 | i <int> | r <num> <den> | s <hex> | v <w> <n> | a <dflt:val> <k> (<val> <val>)*k | u <hex> <k>
+val     := b 0/1 | i <int> | r <num> <den> | s <hex> | v <w> <n> | a <idx:ty> <dflt:val> <k> (<val> <val>)*k | u <hex> <k>
 interp  := N <nsym> (<hex> <ty> <val>)* <nfn> (<hex> <symty> <ntab> (<val>*arity <val>)* <dflt:val>)* <ndom> (<ty> <k> <val>*k)*
 ```
 hex = UTF-8 bytes in hexadecimal, `_` for the empty string.
@@ -151,9 +151,10 @@ partial def val : P Val := do
   | "v" => do let w ← nat; let n ← nat; return .bv w n
   | "u" => do let s ← str; let k ← nat; return .u s k
   | "a" => do
+      let idx ← ty
       let d ← val
       let k ← nat
-      let mut a := Val.aconst d
+      let mut a := Val.aconst idx d
       for _ in [0:k] do
         let key ← val
         let v ← val
@@ -245,9 +246,9 @@ def encTerm (t : Term) : String :=
 partial def encVal : Val → String
   | .b v => if v then "b 1" else "b 0" | .i v => s!"i {v}" | .r v => s!"r {v.num} {v.den}"
   | .s v => s!"s {hex v}" | .bv w v => s!"v {w} {v}" | .u s k => s!"u {hex s} {k}"
-  | a@(.aconst _) | a@(.astore _ _ _) =>
+  | a@(.aconst _ _) | a@(.astore _ _ _) =>
     let ents := a.arrEntries
-    s!"a {encVal a.arrDefault} {ents.length}" ++ String.join (ents.map (fun kv => s!" {encVal kv.1} {encVal kv.2}"))
+    s!"a {encTy a.arrIdx} {encVal a.arrDefault} {ents.length}" ++ String.join (ents.map (fun kv => s!" {encVal kv.1} {encVal kv.2}"))
 
 def encOptTy : Option Ty → String | some t => encTy t | none => "none"
 
